@@ -43,7 +43,7 @@ def _model(case, detect=True, max_instr=400):
     return pipe.simulate(program, case.get("regs"), store, detect, max_instr)
 
 
-def check_schedule(case, stats, detect=True, V=Violation):
+def check_schedule(case, stats, detect=True, V=Violation, dcache=None, icache=None):
     mx = case.get("max", 300)
     ref = _model(case, detect, mx)
     if ref.fault is not None:
@@ -52,8 +52,9 @@ def check_schedule(case, stats, detect=True, V=Violation):
         horizon = ref.recs[-1].W
     else:
         horizon = ref.total_cycles
-    f = pipedrive.run(case, "five", detect, max_steps=horizon + (0 if (ref.truncated or ref.fault) else 8),
+    f = pipedrive.run(case, "five", detect, dcache, icache, max_steps=horizon + (0 if (ref.truncated or ref.fault) else 8),
                       regs_each_step=not detect)
+    cached = bool(dcache or icache)
     exp = ref.retire_by_step()
     got = dict(zip(f.retire_step, f.pcs))
     for s in range(1, min(f.steps, horizon) + 1):
@@ -70,11 +71,12 @@ def check_schedule(case, stats, detect=True, V=Violation):
     elif not ref.truncated:
         if f.end != "done" or f.steps != ref.total_cycles:
             raise V("total-cycles", case, f"schedule ends after {ref.total_cycles} cycles; implementation '{f.end}' after {f.steps} steps")
-        if f.metrics["cycles"] != ref.total_cycles:
+        if not cached and f.metrics["cycles"] != ref.total_cycles:
             raise V("cycle-counter", case, f"cycles counter {f.metrics['cycles']} != {ref.total_cycles}")
-    for s, c in enumerate(f.cycles_after, 1):
-        if c != s:
-            raise V("cycle-counter", case, f"after step {s} the cycle counter reads {c}")
+    if not cached:      # with caches the counter additionally holds the penalties (judged by the per-step identity)
+        for s, c in enumerate(f.cycles_after, 1):
+            if c != s:
+                raise V("cycle-counter", case, f"after step {s} the cycle counter reads {c}")
     return ref, f
 
 
@@ -109,8 +111,14 @@ def check(case, stats):
 
 
 def check_cache(case, stats):
-    """Per step: delta(cycles) == 1 + d_pen * delta(d_misses) + i_pen * delta(i_misses), in either mode."""
+    """Per step: delta(cycles) == 1 + d_pen * delta(d_misses) + i_pen * delta(i_misses), in either mode; and in
+    five-stage mode the step in which each instruction retires still follows the schedule (penalties are counted
+    cycles, not extra steps)."""
     from architecture_simulator.simulation.runtime_errors import InstructionExecutionException
+    if case["mode"] == "five":
+        def V(clause, c, detail):
+            return Violation("cached-" + clause, c, detail)
+        check_schedule(case, stats, True, V, case.get("dcache"), case.get("icache"))
     sim = rvdrive.new_sim(case["mode"], True, case.get("dcache"), case.get("icache"))
     rvdrive.load(sim, case["prog"], case.get("regs"), case.get("mem"))
     dpen = (case.get("dcache") or {}).get("pen", 0)
